@@ -35,9 +35,19 @@ func alphabet(backend string) []Op {
 		Op{K: "Put", Key: "ab", Val: 3, Exp: kvmodel.Never2}, Op{K: "Cas", Key: "a", Val: 1, Ver: "cur", Exp: kvmodel.Never1},
 		// the empty key is a key like any other
 		Op{K: "Put", Key: "", Val: 2}, Op{K: "Delete", Key: ""},
+		// one GetMany asking for 300 keys (the same few, repeated)
+		Op{K: "GetMany", Keys: manyKeys(300)},
 		// an expiry that points to the zero time (long past)
 		Op{K: "Put", Key: "a", Val: 3, Exp: kvmodel.ZeroTime}, Op{K: "PutMany", Keys: []string{"b", "a"}, Val: 2, Exps: []int{kvmodel.ZeroTime, 0}})
 	return a
+}
+
+func manyKeys(n int) []string {
+	ks := make([]string, n)
+	for i := range ks {
+		ks[i] = []string{"a", "zz", "ab", "a", "k/1"}[i%5]
+	}
+	return ks
 }
 
 func baseAlphabet() []Op {
@@ -145,7 +155,7 @@ func (w *worker) backend(name string) *kvmodel.Backend {
 func TestCheck(t *testing.T) {
 	run := report.New("C03", "exploration")
 	defer run.Finish(t)
-	run.Rule("every sequence over 56 operation instances (incl. the empty key; every ListKeys is followed by a second listing that is opened and drained before the first one is read) (incl. keys like \"a/\", \"k//1\", \"b/../a\" ) (Create/Get/GetMany/Put/PutMany/CasByVersion/Delete/ListKeys/WaitForVersionChange; nil/empty/non-empty values; with/without far expiry, expiries already past when written (incl. a pointer to the zero time) and 'never' expiries (years 2300 / 9999); on Redis the time to live the server holds for every written key is compared with the expiry that was given; repeated, missing and no keys in GetMany/PutMany; current/stale/made-up/caller-supplied versions) to the depth bound, plus seeded random sequences of length 30-200 over 6 keys; each backend is compared call by call with the contract model (error class, returned record, version relations, ListKeys as a set). distinct = distinct logical store states (key, presence, value, expiry, kind of last write) reached")
+	run.Rule("every sequence over 57 operation instances (one of them a GetMany of 300 keys; writes with the same logical expiry share one *time.Time, which must stay untouched) (incl. the empty key; every ListKeys is followed by a second listing that is opened and drained before the first one is read) (incl. keys like \"a/\", \"k//1\", \"b/../a\" ) (Create/Get/GetMany/Put/PutMany/CasByVersion/Delete/ListKeys/WaitForVersionChange; nil/empty/non-empty values; with/without far expiry, expiries already past when written (incl. a pointer to the zero time) and 'never' expiries (years 2300 / 9999); on Redis the time to live the server holds for every written key is compared with the expiry that was given; repeated, missing and no keys in GetMany/PutMany; current/stale/made-up/caller-supplied versions) to the depth bound, plus seeded random sequences of length 30-200 over 6 keys; each backend is compared call by call with the contract model (error class, returned record, version relations, ListKeys as a set). distinct = distinct logical store states (key, presence, value, expiry, kind of last write) reached")
 	run.Assume("Redis backend runs against the in-process miniredis server; keys with a leading '/' and invalid glob patterns are not generated (contract silent)")
 	run.Assume("values are compared with bytes.Equal (nil == empty), expiries as instants, ListKeys as a set")
 
